@@ -153,6 +153,26 @@ PROPS["C14"] = {
     "assumptions": ["the platform raises the stop flag only from inside Yield (single-threaded WASM model)"],
 }
 
+PROPS["C15"] = {
+    "pkg": "p15",
+    "level": "exploration",
+    "level_text": "Model-based stateful testing of the event loop contract: ~2.4*10^4 (quick) / ~5*10^5 (thorough) generated programs with "
+                  "globals, top-level code and any subset of the six handlers in every accepted signature, each driven by a history of 0-30 "
+                  "events with generated payloads. After Eval and after every HandleEvent the cumulative platform trace and the returned "
+                  "error class are compared with the reference interpreter (fresh local scope per delivery, shared globals), and the final "
+                  "trace with a differential twin in which every handler is a procedure and the history a sequence of calls.",
+    "level_note": "Events are only delivered for handlers that exist and with payloads of the documented Go types (float64, string), as "
+                  "the platforms do. Delivery stops at the first handler that ends in a run-time panic.",
+    "technique": "model-based stateful property testing + differential twin (handlers rewritten as procedures) (rapid)",
+    "tests": [
+        {"name": "TestProp", "quick": {"shards": 8, "checks": 3000}, "thorough": {"shards": 16, "checks": 30000}},
+    ],
+    "rule": "cases: (program, event history). Handler signatures: all parameters named / some replaced by _ / none; handler bodies read and "
+            "update globals, declare locals, call functions, return early. Non-trivial = at least two different events delivered and "
+            "at least two deliveries; distinct by (source text, history).",
+    "assumptions": [],
+}
+
 NOT_APPLICABLE = {}
 
 ENGINES = [
